@@ -67,6 +67,11 @@ Seed(id) ==
                     [C("InitAdd") EXCEPT !.g = 2, !.v = 2],
                     [C("IOAppend") EXCEPT !.k = "out", !.g = 1, !.v = 1] >>
 
+    \* a node with three outputs of which only the LAST is used (shrinking its outputs meets the unused ones first)
+    [] id = 6 -> << [C("IOAppend") EXCEPT !.k = "in", !.g = 1, !.v = 1],
+                    [C("NewNode") EXCEPT !.vs = <<1>>, !.i = 3, !.g = 1],
+                    [C("NewNode") EXCEPT !.vs = <<NV0 + 3>>, !.i = 1, !.g = 1] >>
+
 Empty == EmptyState(NG, InitNames, InitConsts)
 
 Init ==
@@ -119,14 +124,16 @@ InitCalls ==
   \cup {[C("InitUpdateKeys") EXCEPT !.g = g, !.name = k1, !.v = v, !.k = k2, !.w = w] :
             g \in G, k1 \in NamePool, k2 \in NamePool, v \in PV \cup Nameless, w \in PV \cup Nameless}
 
+Placed == {v \in V : st.vProd[v] # 0 /\ st.nGraph[st.vProd[v]] # 0}    \* outputs of nodes that sit in a graph
 NodeCalls ==
      {[C("ReplaceInput") EXCEPT !.n = n, !.i = i, !.v = v] : n \in N, i \in {0, 1, 2}, v \in PV \cup {0}}
   \cup {[C("ResizeInputs") EXCEPT !.n = n, !.i = k] : n \in N, k \in {-1, 0, 1, 3}}
   \cup {[C("ResizeOutputs") EXCEPT !.n = n, !.i = k] : n \in N, k \in {-1, 0, 1, 2}}
   \cup {[C("ReplaceAllUses") EXCEPT !.v = v, !.w = w, !.flag = f] : v \in PV, w \in PV, f \in BOOLEAN}
   \* the sequence form: two pairs with one replacement (failure at the second pair after the first was applied)
+  \* (the replacement: a pair value or any output of a node that sits in a graph - what a rewrite puts there)
   \cup {c \in {[C("ReplaceAllUsesSeq") EXCEPT !.vs = <<v1, v2>>, !.ws = <<w, w>>, !.flag = f] :
-                  v1 \in PV, v2 \in PV, w \in PV, f \in BOOLEAN} : c.vs[1] # c.vs[2]}
+                  v1 \in PV, v2 \in PV, w \in PV \cup Placed, f \in BOOLEAN} : c.vs[1] # c.vs[2]}
   \* a chain: the replacement of the first pair is the value replaced by the second (what the first pair leaves
   \* behind - an output role, an owner - decides whether the second is acceptable)
   \cup {c \in {[C("ReplaceAllUsesSeq") EXCEPT !.vs = <<v1, v2>>, !.ws = <<v2, w>>, !.flag = f] :
